@@ -637,7 +637,7 @@ class Timeline:
         """
         scheduled_time = self.current_time
         if quantize:
-            scheduled_time = quantize * math.ceil(float(self.current_time) / quantize)
+            scheduled_time = quantize * math.ceil(round(float(self.current_time) / quantize, 8))
         scheduled_time += delay
         action = Action(scheduled_time, function)
         self.actions.append(action)
